@@ -216,3 +216,44 @@ func HarnessC11Globals() {
 		zzCheckRef(w, ref, true)
 	}
 }
+
+// HarnessC11ForcePushSkipped: a block-force-pushes rule must compare a change
+// with the reference's previous UNSKIPPED state.  History: push 1; a history
+// rewrite (push 2, an unrelated root commit) that is valid when made; a
+// policy update declaring the block-force-pushes rule; optionally push 2 is
+// revoked; push 3 builds on push 1 or on push 2.
+func HarnessC11ForcePushSkipped() {
+	w := zzNewWorld()
+	spec := zzBasePolicy([]int{0, 1}, nil)
+	zzMust(w.zzStageAndApply(spec, w.zzBuildState(spec, []int{0}, []int{0}), 0))
+	p1 := w.zzPush(zzMain, 0, 1, false)
+	c1 := p1.target
+	p2 := w.zzPushOn(zzMain, 0, 2, nil) // rewrite: a root commit
+	c2 := p2.target
+	p2idx := len(w.hist) - 1
+	next := zzBasePolicy([]int{0, 1}, []zzGlobalSpec{{name: "g-nofp", pattern: "git:" + zzMain, blockFP: true}})
+	next.rootVersion, next.targetsVer = 2, 2
+	zzMust(w.zzStageAndApply(next, w.zzBuildState(next, []int{0}, []int{0}), 0))
+	revoked := verif.ConcreteBool(verif.Bool("rewrite.revoked"))
+	if revoked {
+		w.zzSkip(0, p2idx)
+	}
+	onRewrite := verif.ConcreteBool(verif.Bool("push3.on.rewrite"))
+	if onRewrite {
+		w.zzPushOn(zzMain, 0, 3, c2)
+	} else {
+		w.zzPushOn(zzMain, 0, 3, c1)
+	}
+	verifier := NewPolicyVerifier(w.S)
+	// verify from the entry that put the new policy in force, so that the
+	// rewrite itself (made before the rule existed) is not re-judged
+	_, err := verifier.VerifyRefFull(w.ctx, zzMain)
+	// push 3 must descend from the previous unskipped state of main
+	descends := (revoked && !onRewrite) || (!revoked && onRewrite)
+	if err == nil {
+		verif.Reach("accepted")
+	} else {
+		verif.Reach("rejected")
+	}
+	verif.Assert((err == nil) == descends, "block-force-pushes-compares-with-previous-unskipped-state")
+}
